@@ -52,7 +52,7 @@ type c12Worker struct {
 
 func checkC12(c *Ctx) {
 	r, p := c.R, c.P
-	r.Explanation = "Decides necessary conditions of C12 with a BOUNDED, PATH-SENSITIVE ABSTRACT INTERPRETATION of the type-checked program's SSA form (kitcheck/c12x.go): nothing of dapr/kit is executed and no solver is used. The exported entry points of concurrency/runner.go and closer.go are interpreted path by path with every same-package callee virtually inlined — helpers, closures, method values and bound wrappers, func-typed fields with a single target, elements of literal tables, methods called through a package interface with a single implementation, deferred calls, sync.Once bodies, range-over-func bodies and the standard library's iterator constructors (slices.Values/All, maps.Keys …); goroutine bodies are interpreted separately, once per go statement and call path, with the values they receive resolved in the starter's state; the collection sizes (number of runners / closers) are fixed to each concrete n = 0..4 — the statement's quantifier — so loops over them are unrolled; the abstract state keeps exact small integers, phi choices, results of inlined helpers, local cells, small slices, the registered defers and the select case taken, and forks on every condition it cannot evaluate; identical states are merged and integers are clipped, so the interpretation is finite. The rules are predicates over the events of every abstract path. Unexported fields (also when grouped into a sub-struct held by value, pointer or embedding) are identified by role — type and use by the exported methods — not by name; a flag may be an atomic.Bool or an atomic integer used as 0 / one non-zero value. SIZES BEYOND n = 4 ARE NOT DECIDED. " +
+	r.Explanation = "Decides necessary conditions of C12 with a BOUNDED, PATH-SENSITIVE ABSTRACT INTERPRETATION of the type-checked program's SSA form (kitcheck/c12x.go): nothing of dapr/kit is executed and no solver is used. The exported entry points of concurrency/runner.go and closer.go are interpreted path by path with every same-package callee virtually inlined — helpers, closures, method values and bound wrappers, func-typed fields with a single target, elements of literal tables, methods called through a package interface with a single implementation, deferred calls, sync.Once bodies, range-over-func bodies and the standard library's iterator constructors (slices.Values/All, maps.Keys …); goroutine bodies are interpreted separately, once per go statement and call path, with the values they receive resolved in the starter's state; the collection sizes (number of runners / closers) are fixed to each concrete n = 0..4 — the statement's quantifier — so loops over them are unrolled; the abstract state keeps exact small integers, phi choices, results of inlined helpers, local cells, small slices, the registered defers and the select case taken, and forks on every condition it cannot evaluate; identical states are merged and integers are clipped, so the interpretation is finite. The rules are predicates over the events of every abstract path. Unexported fields (also when grouped into a sub-struct held by value, pointer or embedding) are identified by role — type and use by the exported methods — not by name; a flag may be an atomic.Bool or an atomic integer used as 0 / one non-zero value; a flag, the lock or a channel may be handed to a helper by address or value (closeOnFirst(&flag, ch), withMutex(&mu, fn), an accessor returning the address) and is identified through the call path; a test-and-set or lock operation on an object that cannot be identified makes the rules that depend on it UNDECIDED, never a violation. SIZES BEYOND n = 4 ARE NOT DECIDED. " +
 		"(K0) both Run methods start goroutines only on paths on which their own atomic test-and-set of the running flag succeeded; RunnerManager.Add appends only on paths on which it read the flag unset and otherwise returns a non-nil error. " +
 		"(K1) every runner goroutine calls its own element runners[i] exactly once with the context derived by context.WithCancel, sends exactly one result after it, and calls that context's cancel on every path after the runner returned and never before; for every n, on every path Run starts one goroutine per element and receives exactly n results before it returns. " +
 		"(K2) nil is sent / a result is not handed to errors.Join only when it is known nil or context.Canceled; a result that may be Canceled is never joined; Run returns that errors.Join (or nil when nothing was joined); every runner or closer the package registers itself (the runner that waits for Close, the fatal-shutdown closer, AddCloser's wrapper of a result-less closer) returns nil — or, for a runner, context.Canceled — on every path, so only the user's runners and closers contribute errors. " +
@@ -522,18 +522,168 @@ func c12IsNonZero(v ssa.Value) bool {
 	return ok && k != 0
 }
 
-func (x *c12) flagCall(in ssa.Instruction, f FieldID, name string) (*ssa.Call, bool) {
+// addrFieldIn: the struct field whose address v denotes in frame fr. v may be
+// the FieldAddr itself or reach the frame as a parameter (a helper taking
+// `flag *atomic.Bool` / `mu *sync.Mutex`), a captured variable or a local
+// holding the address; parameters are followed to the call site's argument in
+// the calling frame.
+func (x *c12) addrFieldIn(fr *xFrame, v ssa.Value) (FieldID, bool) {
+	for depth := 0; depth < 10 && v != nil; depth++ {
+		if id, _, ok := fieldOfValue(v); ok {
+			return id, true
+		}
+		switch t := v.(type) {
+		case *ssa.Parameter:
+			if fr == nil {
+				return FieldID{}, false
+			}
+			if fr.staticBind != nil {
+				if b, ok := fr.staticBind[t]; ok {
+					v, fr = b, nil
+					continue
+				}
+			}
+			if fr.fn != t.Parent() || fr.site == nil {
+				return FieldID{}, false
+			}
+			args := fr.site.Common().Args
+			if fr.site.Common().IsInvoke() {
+				args = append([]ssa.Value{fr.site.Common().Value}, args...)
+			}
+			idx := -1
+			for i, pa := range fr.fn.Params {
+				if pa == t {
+					idx = i
+				}
+			}
+			if idx < 0 || idx >= len(args) {
+				return FieldID{}, false
+			}
+			v, fr = args[idx], fr.parent
+		case *ssa.FreeVar:
+			if fr != nil && fr.closure != nil && fr.closure.K == xAtom {
+				if mc, ok := fr.closure.V.(*ssa.MakeClosure); ok {
+					found := false
+					for i, fv := range fr.fn.FreeVars {
+						if fv == t && i < len(mc.Bindings) {
+							v, fr, found = mc.Bindings[i], fr.closure.F, true
+						}
+					}
+					if found {
+						continue
+					}
+				}
+			}
+			b := resolveFreeVar(t)
+			if b == nil {
+				return FieldID{}, false
+			}
+			v, fr = b, nil
+		case *ssa.ChangeType:
+			v = t.X
+		case *ssa.UnOp:
+			// a local / captured variable holding the address
+			rs := c12Roots(t, nil)
+			if len(rs) != 1 || rs[0] == v {
+				return FieldID{}, false
+			}
+			v = rs[0]
+		default:
+			return FieldID{}, false
+		}
+	}
+	return FieldID{}, false
+}
+
+// addrFieldSt: like addrFieldIn, and when that fails the address is evaluated
+// in the path state (e.g. the result of an inlined accessor `lockOf(c)`).
+func (x *c12) addrFieldSt(st *xState, fr *xFrame, v ssa.Value) (FieldID, bool) {
+	if id, ok := x.addrFieldIn(fr, v); ok {
+		return id, true
+	}
+	if st == nil || fr == nil {
+		return FieldID{}, false
+	}
+	ev := st.EvalIn(fr, v)
+	if ev.K == xAtom {
+		if fa, ok := ev.V.(*ssa.FieldAddr); ok {
+			return fieldIDOfAddr(fa), true
+		}
+	}
+	var id FieldID
+	n := 0
+	for _, r := range st.Static(ev) {
+		fa, ok := r.(*ssa.FieldAddr)
+		if !ok {
+			return FieldID{}, false
+		}
+		if n > 0 && fieldIDOfAddr(fa) != id {
+			return FieldID{}, false
+		}
+		id = fieldIDOfAddr(fa)
+		n++
+	}
+	return id, n > 0
+}
+
+// unresolvedLockOp: ci locks/unlocks a sync mutex whose identity cannot be
+// established.
+func (x *c12) unresolvedLockOp(st *xState, ci ssa.CallInstruction) bool {
+	obj := calleeObj(ci)
+	if obj == nil || ci.Common().IsInvoke() || len(ci.Common().Args) == 0 || obj.Pkg() == nil || obj.Pkg().Path() != "sync" {
+		return false
+	}
+	switch obj.Name() {
+	case "Lock", "Unlock", "RLock", "RUnlock":
+	default:
+		return false
+	}
+	_, ok := x.addrFieldSt(st, st.fr, ci.Common().Args[0])
+	if ok {
+		return false
+	}
+	// a mutex that is a plain local (not a field) is identified: it is not ours
+	if _, isAlloc := ci.Common().Args[0].(*ssa.Alloc); isAlloc {
+		return false
+	}
+	return true
+}
+
+// flagCall: in (executed in frame fr) calls method `name` of the atomic flag f.
+func (x *c12) flagCall(fr *xFrame, in ssa.Instruction, f FieldID, name string) (*ssa.Call, bool) {
 	call, ok := in.(*ssa.Call)
 	if !ok || !c12IsFlagMethod(call, name) || len(call.Call.Args) == 0 {
 		return nil, false
 	}
-	id, _, ok := fieldOfValue(call.Call.Args[0])
+	id, ok := x.addrFieldIn(fr, call.Call.Args[0])
 	return call, ok && id == f
 }
 
-// flagSetCall: in is f.Store(true / non-zero).
-func (x *c12) flagSetCall(in ssa.Instruction, f FieldID) bool {
-	c, ok := x.flagCall(in, f, "Store")
+// unresolvedTAS: cond is the result of a CompareAndSwap / Swap on an atomic
+// flag whose identity cannot be established (its address arrives in a way the
+// check does not follow). A rule that needs "some test-and-set succeeded"
+// must then be UNDECIDED rather than conclude that none did.
+func (x *c12) unresolvedTAS(cond xVal) bool {
+	chk := func(v xVal) bool {
+		if v.K != xAtom {
+			return false
+		}
+		call, ok := v.V.(*ssa.Call)
+		if !ok || len(call.Call.Args) == 0 || !(c12IsFlagMethod(call, "CompareAndSwap") || c12IsFlagMethod(call, "Swap")) {
+			return false
+		}
+		_, ok = x.addrFieldIn(v.F, call.Call.Args[0])
+		return !ok
+	}
+	if chk(cond) {
+		return true
+	}
+	return cond.K == xCmp && (chk(*cond.X) || chk(*cond.Y))
+}
+
+// flagSetCall: in (executed in the current frame of st) is f.Store(true / non-zero).
+func (x *c12) flagSetCall(st *xState, in ssa.Instruction, f FieldID) bool {
+	c, ok := x.flagCall(st.fr, in, f, "Store")
 	return ok && len(c.Call.Args) == 2 && c12IsNonZero(c.Call.Args[1])
 }
 
@@ -549,7 +699,7 @@ func (x *c12) flagValue(cond xVal, truth bool, f FieldID, name string) int {
 		if !ok {
 			return false
 		}
-		_, ok = x.flagCall(call, f, name)
+		_, ok = x.flagCall(v.F, call, f, name)
 		return ok
 	}
 	if isOp(cond) { // boolean flag used directly
@@ -633,7 +783,7 @@ func (x *c12) flagOnlyValue(f FieldID) (int64, bool) {
 func (x *c12) tasWon(cond xVal, truth bool, f FieldID) bool {
 	if cond.K == xAtom {
 		if call, ok := cond.V.(*ssa.Call); ok {
-			if c, ok := x.flagCall(call, f, "CompareAndSwap"); ok && truth {
+			if c, ok := x.flagCall(cond.F, call, f, "CompareAndSwap"); ok && truth {
 				a := c.Call.Args
 				return len(a) == 3 && c12IsZero(a[1]) && c12IsNonZero(a[2])
 			}
@@ -655,7 +805,7 @@ func (x *c12) swapSets(cond xVal, f FieldID) bool {
 		if !ok {
 			return false
 		}
-		c, ok := x.flagCall(call, f, "Swap")
+		c, ok := x.flagCall(v.F, call, f, "Swap")
 		return ok && len(c.Call.Args) == 2 && c12IsNonZero(c.Call.Args[1])
 	}
 	if find(cond) {
@@ -710,12 +860,21 @@ func (x *c12) isField(st *xState, v ssa.Value, f FieldID) bool {
 
 // lockOp classifies a call/defer as Lock (+1) / Unlock (-1) of the inner
 // manager's lock, 0 otherwise.
-func (x *c12) lockOp(ci ssa.CallInstruction) int {
+func (x *c12) lockOp(st *xState, ci ssa.CallInstruction) int {
+	return x.lockOpOf(st, ci, x.rmLock)
+}
+
+// lockOpOf: +1 / -1 if ci (in the current frame of st) locks / unlocks the
+// mutex field `lock`, whose address may reach the call through parameters.
+func (x *c12) lockOpOf(st *xState, ci ssa.CallInstruction, lock FieldID) int {
 	obj := calleeObj(ci)
 	if obj == nil || ci.Common().IsInvoke() || len(ci.Common().Args) == 0 {
 		return 0
 	}
-	if id, _, ok := fieldOfValue(ci.Common().Args[0]); !ok || id != x.rmLock {
+	if obj.Name() != "Lock" && obj.Name() != "Unlock" {
+		return 0
+	}
+	if id, ok := x.addrFieldSt(st, st.fr, ci.Common().Args[0]); !ok || id != lock {
 		return 0
 	}
 	switch obj.Name() {
